@@ -759,7 +759,8 @@ Proof.
   unfold ensure_bucket. intros H HI. destruct (get_bucket s b') as [bk|] eqn:Eb.
   - inversion H; subst. auto.
   - destruct (cfg_auto_bucket c).
-    + unfold create_bucket in H. rewrite Eb in H. cbn [fst] in H. inversion H; subst. clear H.
+    + destruct (validate b'); [|inversion H; subst; auto].
+      unfold create_bucket in H. rewrite Eb in H. cbn [fst] in H. inversion H; subst. clear H.
       unfold set_bucket. split; [|split].
       * apply inv_set; [exact HI|lia|]. split; [exact I|]. split.
         -- intros k o [].
